@@ -23,6 +23,7 @@ var purePkgs = map[string]bool{
 	"fmt": true, "errors": true, "strings": true, "strconv": true, "bytes": true, "unicode": true, "math": true,
 	"reflect": true, "context": true, "sync": true, "time": true, "unicode/utf8": true, "regexp": true, "runtime": true,
 	"github.com/getlantern/errors": true, "path/filepath": true, "math/rand": true, "net/url": true,
+	"hash": true, "io": true, "github.com/getlantern/bytemap": true, "github.com/spaolacci/murmur3": true,
 }
 
 func (tx *FnTx) setResult(v ssa.Value, sig *types.Signature, res []Term) {
@@ -284,6 +285,7 @@ func (tx *FnTx) checkCallAsserts(desc string, when string, st, pre *State, res [
 	if tx.c == nil {
 		return
 	}
+	callArgs := tx.curCallArgs
 
 	for _, ca := range tx.c.CallAsserts {
 		if ca.When != when || !strings.Contains(desc, ca.Pattern) {
@@ -297,6 +299,9 @@ func (tx *FnTx) checkCallAsserts(desc string, when string, st, pre *State, res [
 		env.resolve = tx.resolverUpTo(tx.curBlock, nil, true, lim)
 		for i, r := range res {
 			env.vars[fmt.Sprintf("callresult%d", i)] = r
+		}
+		for i, a := range callArgs {
+			env.vars[fmt.Sprintf("callarg%d", i)] = a
 		}
 		s, err := env.TrBool(ca.Clause.E)
 		if err != nil {
@@ -328,6 +333,7 @@ func (tx *FnTx) callCommon(cc *ssa.CallCommon, v ssa.Value, st *State) *State {
 		}
 		key := ifaceKey(cc.Value.Type(), cc.Method.Name())
 		desc = key
+		tx.curCallArgs = args
 		tx.checkCallAsserts(desc, "before", st, st, nil)
 		tx.safety("nil", "(not (= (i-typ "+recv.S+") 0))", "method call on non-nil interface "+cc.Value.Name())
 		if c := tx.cs.Fns[key]; c != nil {
@@ -368,6 +374,7 @@ func (tx *FnTx) callCommon(cc *ssa.CallCommon, v ssa.Value, st *State) *State {
 	}
 	key := fnKey(callee)
 	desc = key
+	tx.curCallArgs = args
 	tx.checkCallAsserts(desc, "before", st, st, nil)
 	// 3. modelled library functions
 	if post, ok := tx.modelled(key, callee, cc, v, args, st); ok {
@@ -460,6 +467,7 @@ func (tx *FnTx) callDynamic(cc *ssa.CallCommon, v ssa.Value, args []Term, st *St
 	tx.recordFnVal(name, cc.Value.Type())
 	fv := tx.val(cc.Value)
 	desc := "dyn:" + name
+	tx.curCallArgs = args
 	tx.checkCallAsserts(desc, "before", st, st, nil)
 	tx.safety("nilfunc", "(not (= "+fv.S+" 0))", "call of non-nil function value "+name)
 	post := tx.h.havocAll(st)
